@@ -182,7 +182,8 @@ Section Machine.
   Definition repo_effect (r : lres) (repo : list nat) : list nat :=
     match l_kind r with
     | LOk | LOkPrim | LModelProc => union repo (l_files r)
-    | _ => diff repo (l_files r)
+    | _ => repo     (* a failing load removes exactly the models it added (those still in construction);
+                       models cached by earlier loads stay *)
     end.
 
   Definition step_load (st : pst) (s : nat) (i : nat) : pst * out :=
